@@ -57,10 +57,29 @@ func c12WriteSplit(w interface{ Write([]byte) (int, error) }, msg []byte) {
 	_, _ = w.Write(msg[n:])
 }
 
+// c12Ctxs shares SigningContext objects between the transcripts of one case:
+// a context is documented as reusable ("initializes a new signing transcript"
+// each time), so deriving several transcripts from one context object must
+// give the same result as deriving each from a fresh one.
+type c12Ctxs map[string]*sr25519.SigningContext
+
+func (cs c12Ctxs) transcript(m h.C12Msg) *sr25519.SigningTranscript {
+	sc := cs[string(m.Ctx)]
+	if sc == nil {
+		sc = sr25519.NewSigningContext(m.Ctx)
+		cs[string(m.Ctx)] = sc
+	}
+	return c12TranscriptIn(sc, m)
+}
+
 // c12LibTranscript builds the library transcript for a (context, message,
-// source) triple through the constructor the source names.
+// source) triple from a fresh context.
 func c12LibTranscript(m h.C12Msg) *sr25519.SigningTranscript {
-	sc := sr25519.NewSigningContext(m.Ctx)
+	return c12TranscriptIn(sr25519.NewSigningContext(m.Ctx), m)
+}
+
+// c12TranscriptIn builds the transcript through the constructor the source names.
+func c12TranscriptIn(sc *sr25519.SigningContext, m h.C12Msg) *sr25519.SigningTranscript {
 	var hs hash.Hash
 	switch m.Src {
 	case "bytes":
@@ -211,7 +230,8 @@ func c12CheckSign(c c12SignCase) h.Result {
 	}
 
 	// (a) signature bytes under the same entropy; the transcript object is reusable
-	st := c12LibTranscript(e.M)
+	ctxs := c12Ctxs{}
+	st := ctxs.transcript(e.M)
 	sig, err := kp.Sign(e.Ent.Reader(), st)
 	if err != nil || sig == nil {
 		return r.Fail("sr25519.KeyPair.Sign:error", "err=%v", err).Result()
@@ -239,7 +259,7 @@ func c12CheckSign(c c12SignCase) h.Result {
 	if !ok {
 		return r.Result()
 	}
-	if sig2 == nil || !pk2.Verify(c12LibTranscript(e.M), sig2) || !pk2.Equal(pk) {
+	if sig2 == nil || !pk2.Verify(ctxs.transcript(e.M), sig2) || !pk2.Verify(c12LibTranscript(e.M), sig2) || !pk2.Equal(pk) {
 		return r.Fail("sr25519.PublicKey.Verify:rejected-valid", "after re-decoding; pub=%x m=%v sig=%x", hon.Pub, e.M, sigBytes).Result()
 	}
 	// in a batch of one
@@ -287,7 +307,7 @@ func c12CheckSign(c c12SignCase) h.Result {
 			}
 			continue
 		}
-		mst := c12LibTranscript(b.M)
+		mst := ctxs.transcript(b.M)
 		got := mpk.Verify(mst, msig)
 		if got != exp {
 			if exp {
